@@ -7,6 +7,7 @@ package main
 
 import (
 	"crypto/sha256"
+	"math"
 	"encoding/hex"
 	"fmt"
 
@@ -47,6 +48,7 @@ type Ev struct {
 	HasCap   bool     `json:"hasCap"`
 	Timeout  int64    `json:"timeout"`
 	Freq     int64    `json:"freq"`
+	FreqHuge bool     `json:"freqhuge"` // the frequency of the message is 2^64-1 (finding D11)
 	Total    int64    `json:"total"`
 	Super    bool     `json:"super"`
 	Rep      bool     `json:"rep"`
@@ -67,6 +69,7 @@ type Ev struct {
 	RParams *MParams         `json:"params,omitempty"`
 	RBal    map[string]int64 `json:"rbal,omitempty"`
 	RInit   []Ev             `json:"init,omitempty"`
+	RModSvc bool             `json:"modsvc,omitempty"` // register the test module service (finding D9)
 	Tag     string           `json:"tag,omitempty"`
 
 	// StartBatch only: the requests listed by the sub-step's new_batch_request event, in order
@@ -232,8 +235,12 @@ func (c *Chain) Apply(e *Ev) bool {
 	case "SetWithdrawAddr":
 		out = c.Deliver(types.NewMsgSetWithdrawAddress(c.A(e.Signer), c.A(e.Addr)))
 	case "Call":
+		freq := uint64(e.Freq)
+		if e.FreqHuge {
+			freq = math.MaxUint64
+		}
 		out = c.Deliver(types.NewMsgCallService(e.Svc, c.addrs(e.Provs), c.A(e.Signer), e.Input,
-			coinsOf(e.CapShape, e.Cap), e.Timeout, e.Super, e.Rep, uint64(e.Freq), e.Total))
+			coinsOf(e.CapShape, e.Cap), e.Timeout, e.Super, e.Rep, freq, e.Total))
 		if out.OK {
 			e.ID = c.NCtx
 		}
